@@ -46,21 +46,21 @@ CHECKS = {
     "C06": (
         "model_checking",
         "explicit-state BFS over edit/reindex/day-advance histories on real directories with a differential oracle (incremental index vs fresh db create)",
-        "Breadth-first search to depth 3 (quick) / 4 (thorough) from five initial states (one level less from the three derived ones: after a stamped edit, after a page was deleted and the index followed, after a plain reindex was refused half-way with a new page already indexed) over 18 events (edits, add/delete/rename/restore pages, break/repair the last page, plain and path-restricted reindex, day advance); states are real directories deduplicated on a canonical digest (files, raw index, hash map, next ids, whitelist, day, guards). In every state reached by a plain reindex the raw index must equal that of a fresh db create on a copy of the final files, files must be settled, and 12 queries must be answered identically by both indexes.",
+        "Breadth-first search to depth 3 (quick) / 4 (thorough) from six initial states (one level less from the four derived ones: after a stamped edit, after a page was deleted and the index followed, after a plain reindex was refused half-way with a new page already indexed, after one run that wrote a ZID back, dropped a vanished page and took in a new page) over 18 events (edits, add/delete/rename/restore pages, break/repair the last page, plain and path-restricted reindex, day advance); states are real directories deduplicated on a canonical digest (files, raw index, hash map, next ids, whitelist, day, guards). In every state reached by a plain reindex the raw index must equal that of a fresh db create on a copy of the final files, files must be settled, and 16 queries must be answered identically by both indexes.",
         "One small directory and a fixed menu of edits; rows no query can observe (orphan tag/link rows) are not judged.",
         "§4 C06",
     ),
     "C07": (
         "model_checking",
         "exhaustive enumeration of the finite successor/allocation chain + explicit-state BFS over allocation histories on the real ZIDManager",
-        "All 135,252 suffixes of the successor chain are enumerated and compared with an independent odometer; the whole allocation chain of a date is driven through the real ZIDManager; every suffix (thorough) or every 2-char suffix plus all carry neighbourhoods (quick) is lexed by both generated lexers and compiled back as a note identity, on ordinary, leap-day and century-edge dates; a BFS over alloc / restart / new-process / other-live-process-allocates histories from 9 initial persisted maps, and round-robin histories over up to 12 (thorough 24) dates with a fresh manager per allocation, check uniqueness, returned==persisted-next and successor==model in every state. The space is finite, so within one date the verdict is complete, not sampled.",
+        "All 135,252 suffixes of the successor chain are enumerated and compared with an independent odometer; the whole allocation chain of a date is driven through the real ZIDManager; every suffix (thorough) or every 2-char suffix plus all carry neighbourhoods (quick) is lexed by both generated lexers and compiled back as a note identity, on ordinary, leap-day and century-edge dates; ZIDs written back by the real db create under 11 kind/priority/date prefixes with prefix look-alike first words must be recognised on recompilation; dates a century apart that share their YYMMDD part draw from one sequence; a BFS over alloc / restart / new-process / other-live-process-allocates histories from 9 initial persisted maps, and round-robin histories over up to 12 (thorough 24) dates with a fresh manager per allocation, check uniqueness, returned==persisted-next and successor==model in every state. The space is finite, so within one date the verdict is complete, not sampled.",
         "Trusts CPython, the antlr4 runtime and the odometer model (mc/models/zid_model.py); dates within one century; no concurrent allocators.",
         "§4 C07",
     ),
     "C08": (
         "exploration",
         "deviation-bounded exhaustive enumeration (0, 1, 2 edits away from valid seed pages + all short token strings) on the real compiler and index commands",
-        "Every single-character deletion/insertion/substitution over an alphabet of up to 30 symbols, every line and token edit of up to 12 seed pages that cover every construct, all pairs of line edits (thorough), and all token strings of length <= 3 are compiled by the real compiler; the oracle is the generated parser's own syntax-error counter (read from the intercepted parser instance, independent of ErrorManager) plus a line-shape item count, and an independent parse-tree walk decides whether a note was reachable. One representative per outcome class is pushed through real db create / db create -f / db reindex and the index is read back with sqlite3; whitelist look-alike paths and the whitelist life cycle (db create -f whitelists exactly the broken page; still broken, fixed, broken again) are driven through create and reindex.",
+        "Every single-character deletion/insertion/substitution over an alphabet of up to 30 symbols, every line and token edit of up to 12 seed pages that cover every construct, all pairs of line edits (thorough), and all token strings of length <= 3 are compiled by the real compiler; the oracle is the generated parser's own syntax-error counter (read from the intercepted parser instance, independent of ErrorManager) plus a line-shape item count, and an independent parse-tree walk decides whether a note was reachable. One representative per outcome class and 56 valid pages with unusual ZID-less items are pushed through real db create / db create -f / db reindex and the index is read back with sqlite3 (after a refused reindex it must still hold the page as it was); whitelist look-alike paths and the whitelist life cycle (db create -f whitelists exactly the broken page; still broken, fixed, broken again) are driven through create and reindex.",
         "Lexer-level token-recognition errors (tab, NUL, non-ASCII) are outside the parser's report and only judged for totality; item count for damaged-but-accepted pages uses a line-shape rule.",
         "§4 C08",
     ),
